@@ -46,13 +46,19 @@ def scenario(ctx, i):
         tests[0]["px"] = np.rint(tests[0]["px"])
     ok = ["scalar", "shared", "per_test"][int(r.integers(0, 3))]
     off = 0.0 if ok == "scalar" else (r.normal(size=(C, D)) * np.sqrt(v) * 0.2 if ok == "shared" else np.array([r.normal(size=(C, D)) * np.sqrt(v) * 0.2 for _ in tests]))
-    return dict(C=C, D=D, w=w, m=m, v=v, models=models, models_kind=mk, tests=tests, single=single, off_kind=ok, off=off, norm=bool(r.integers(0, 2)), norm_form=["bool", "bool", "np_bool", "int"][int(r.integers(0, 4))], ubm_is_map=bool(r.random() < 0.3), ubm_warm_start=bool(r.random() < 0.3), int_first=int_first)
+    return dict(C=C, D=D, w=w, m=m, v=v, models=models, models_kind=mk, tests=tests, single=single, off_kind=ok, off=off, norm=bool(r.integers(0, 2)), norm_form=["bool", "bool", "np_bool", "int"][int(r.integers(0, 4))], ubm_is_map=bool(r.random() < 0.3), ubm_warm_start=bool(r.random() < 0.3), int_first=int_first, ubm_reused=bool(r.random() < 0.25))
 
 
 def call_impl(sc):
     from bob.learn.em import GMMMachine, linear_scoring
 
     ubm = gen.mk_gmm(sc["w"], sc["m"], sc["v"])
+    if sc.get("ubm_reused"):
+        # the same UBM object was used for scoring while it still had other means (a refit / warm start with the variances
+        # left alone re-assigns the means only)
+        ubm.means = np.array(sc["m"]) + 2.0
+        core.impl(lambda: linear_scoring(np.array(sc["m"])[None], ubm, gen.mk_stats(sc["C"], sc["D"], np.ones(sc["C"]), np.array(sc["m"]), np.zeros((sc["C"], sc["D"])), 3), 0, False))
+        ubm.means = np.array(sc["m"])
     ubm_arg = ubm
     if sc.get("ubm_warm_start") and not sc["ubm_is_map"]:
         # an ML machine that was warm-started from another one (GMMMachine(trainer="ml", ubm=init)) is a UBM in its own right
